@@ -163,7 +163,35 @@ class Evaluator:
         self.uid = UID()
         self.opaque_log = []
         self.extra_inputs = []
-        self._input_adts = None   # further values that denote an Input (e.g. self.input of a wrapper)
+        self._input_adts = None
+        self._assigned = {}   # further values that denote an Input (e.g. self.input of a wrapper)
+
+    def assigned_vars(self, fn):
+        """ids of local variables that are re-assigned somewhere in the body (their symbolic value
+        is not the initialiser)"""
+        p = fn['path']
+        if p not in self._assigned:
+            acc = set()
+
+            def scan(n):
+                if isinstance(n, dict):
+                    if n.get('k') in ('assign', 'assignop'):
+                        l = n['l']
+                        while isinstance(l, dict) and l.get('k') in ('deref',):
+                            l = l['e']
+                        if isinstance(l, dict) and l.get('k') in ('var', 'upvar'):
+                            acc.add(l['v'])
+                    for x in n.values():
+                        if isinstance(x, (dict, list)):
+                            scan(x)
+                elif isinstance(n, list):
+                    for x in n:
+                        scan(x)
+            scan(fn.get('thir'))
+            for c in self.facts.children.get(p, []):
+                scan(c.get('thir'))
+            self._assigned[p] = acc
+        return self._assigned[p]
 
     def input_adts(self):
         if self._input_adts is None:
@@ -339,7 +367,7 @@ class Evaluator:
             r, t2 = self.ev(e['r'], ctx)
             ev_ = ['eps']
             sl = strip(l)
-            if isinstance(sl, tuple) and (sl[0] in ('field', 'index') or sl == ('self',) or sl[0] == 'param'):
+            if isinstance(sl, tuple) and (sl[0] in ('field', 'index', 'mutvar') or sl == ('self',) or sl[0] == 'param'):
                 ev_ = ['SET', sl, strip(r), e.get('op')]
             return (('unit',), cat(t1, t2, ev_))
         if k == 'index':
@@ -370,7 +398,9 @@ class Evaluator:
                     sinkk = 'arrayvec'
                 if isinstance(sv0, tuple) and sv0[0] == 'adt' and sv0[1].endswith('SizeTracker'):
                     sinkk = 'sizetracker'
-                if sinkk and s['pat']['k'] == 'bind':
+                if (not sinkk) and s['pat']['k'] == 'bind' and s['pat']['v'] in self.assigned_vars(ctx.fn):
+                    ctx.env[s['pat']['v']] = ('mutvar', s['pat']['v'], s['pat']['name'], strip(v))
+                elif sinkk and s['pat']['k'] == 'bind':
                     ctx.env[s['pat']['v']] = ('sink', s['pat']['v'])
                     ctx.sinks[s['pat']['v']] = []
                     ctx.sink_kind[s['pat']['v']] = (sinkk, sv0)
@@ -819,6 +849,8 @@ def vstr(v, n=0):
         return 'remaining#%s' % (v[1] if len(v) > 1 else '')
     if k == 'param':
         return v[1]
+    if k == 'mutvar':
+        return 'mut ' + v[2]
     if k in ('res', 'opt', 'errres'):
         return '%s(%s)' % ({'res': 'Ok', 'opt': 'Some', 'errres': 'Err'}[k], vstr(v[1], n + 1))
     if k == 'conv':
